@@ -536,10 +536,18 @@ def r11_events_commit(text):
             raise ExtractError('R11: enclosing block not found')
         last, close = _tail_pos(m, k)
         between = m[mo.end():last]
-        if re.search(r'(?<![A-Za-z0-9_])return(?![A-Za-z0-9_])', between) or '?' in between:
-            raise ExtractError('R11: early exit between init() and the end of the scope of the event batch')
+        if '?' in between:
+            raise ExtractError('R11: `?` exit between init() and the end of the scope of the event batch')
         commit = '\nself.transaction_events.vx_commit(%s);\n' % var
         text = text[:last] + commit + text[last:]
+        # an early `return` inside the scope drops the batch too: commit there as well (back to front)
+        rets = [r.start() for r in re.finditer(r'(?<![A-Za-z0-9_])return(?![A-Za-z0-9_])', m[mo.end():last])]
+        for r in reversed(rets):
+            a = mo.end() + r
+            e = m.find(';', a)
+            if e < 0 or e > last:
+                raise ExtractError('R11: malformed return inside the batch scope')
+            text = text[:a] + '{ self.transaction_events.vx_commit(%s); ' % var + text[a:e + 1] + ' }' + text[e + 1:]
         text = text[:mo.start()] + 'let mut %s = VxEvents::vx_init();' % var + text[mo.end():]
         n += 1
     return text, n
